@@ -264,3 +264,98 @@ Definition pcr0_digest_ref (first : Z) (ds : digest_shape) (alg : Z) : option ra
 
 Definition pcr0_digest_refs (first : Z) (ds : digest_shape) : list (option range) :=
   map (pcr0_digest_ref first ds) [ALG_SHA1; ALG_SHA256].
+
+(** * The callers' memory: mappers must not touch their arguments
+
+    Every PhysMemMapper entry point takes [ranges ...pkgbytes.Range]: when the caller spreads a
+    slice ([m.Unresolve(img, offsets...)]) the callee works on the CALLER's backing array, spare
+    capacity included. The code as it is only reads it and builds its answer in memory of its
+    own ([var result] / [make] + [append]). The model below makes that visible: a heap of
+    arrays; a call reads a slice [a[lo:lo+n]] of one of them and allocates its answer as a NEW
+    array at the end of the heap (so that later calls can be given earlier answers, and the
+    harness can re-read everything after the session). No call changes an existing array.
+    [MWrite] is the caller overwriting an element of an array (its own list or an answer it
+    was given) between calls. *)
+
+Definition heap : Type := list (list range).
+
+(** which: 0 Resolve, 1 ResolveFullImageOffset, 2 Unresolve, 3 UnresolveFullImageOffset,
+    4 ResolveBIOSRegionOffset, 5 UnresolveBIOSRegionOffset *)
+Definition pmm_apply (which size : Z) (bios : option Z) (rs : list range) : outcome (list range) :=
+  if (which =? 0) || (which =? 1) then pmm_resolve_ranges size rs
+  else if (which =? 2) || (which =? 3) then pmm_unresolve_ranges size rs
+  else if which =? 4 then pmm_resolve_bios_ranges bios rs
+  else pmm_unresolve_bios_ranges bios rs.
+
+Definition heap_slice (h : heap) (a lo n : nat) : list range :=
+  firstn n (skipn lo (nth a h [])).
+
+Fixpoint set_nth {A} (l : list A) (i : nat) (x : A) : list A :=
+  match l, i with
+  | [], _ => []
+  | _ :: t, O => x :: t
+  | y :: t, S i' => y :: set_nth t i' x
+  end.
+
+Definition heap_write (h : heap) (a i : nat) (r : range) : heap :=
+  match nth_error h a with
+  | Some arr => set_nth h a (set_nth arr i r)
+  | None => h
+  end.
+
+Inductive mop : Type :=
+| MCall (which size : Z) (bios : option Z) (a lo n : nat)
+| MWrite (a i : nat) (r : range).
+
+Definition answer_array (res : outcome (list range)) : list range :=
+  match res with Ok out => out | _ => [] end.
+
+(** One step: what the call returned (None for a write) and the heap afterwards. *)
+Definition mop_step (h : heap) (o : mop) : option (outcome (list range)) * heap :=
+  match o with
+  | MCall which size bios a lo n =>
+      let res := pmm_apply which size bios (heap_slice h a lo n) in
+      (Some res, h ++ [answer_array res])
+  | MWrite a i r => (None, heap_write h a i r)
+  end.
+
+Fixpoint msession (h : heap) (ops : list mop) : list (option (outcome (list range))) * heap :=
+  match ops with
+  | [] => ([], h)
+  | o :: tl =>
+      let (r, h1) := mop_step h o in
+      let (rs, h2) := msession h1 tl in
+      (r :: rs, h2)
+  end.
+
+(** * One NodeVisitor object used for several Runs
+
+    [rangeMap] and [countMap] are fields of the visitor; [Run] assigns both before the
+    traversal ([v.countMap = map[string]uint{}], [v.rangeMap = node.NameToRangesMap()] for the
+    node given to THIS Run, [node.AddOffset] included in the rows). The other three private
+    fields ([isSkipping], [isProcessedSection], [containerRange]) are set and restored by
+    [defer]s on every exit path of [Visit], so they are parameters of [visit] rather than state
+    that survives a Run. [rows] = what NameToRangesMap returns for the tree of this Run. *)
+
+Record vstate : Type := mkV { vs_rm : rangemap; vs_cm : countmap }.
+
+Definition v_fresh : vstate := mkV [] [].
+
+Definition run_v (st : vstate) (rows : rangemap) (fb : bool) (t : tree) : outcome (list range) * vstate :=
+  let st1 := mkV (vs_rm st) [] in               (* v.countMap = map[string]uint{} *)
+  let st2 := mkV rows (vs_cm st1) in            (* v.rangeMap = node.NameToRangesMap() *)
+  match visit (vs_rm st2) fb t false false None (vs_cm st2) with
+  | Ok (rs, cm) => (Ok rs, mkV (vs_rm st2) cm)
+  (* after a panic / an error the counters are somewhere in between; nothing can observe them:
+     the next Run assigns both maps before it reads them *)
+  | Err c => (Err c, st2) | Panic => (Panic, st2) | OutOfFuel => (OutOfFuel, st2)
+  end.
+
+Definition vrun : Type := (tree * rangemap * bool)%type.
+
+Fixpoint vsession (st : vstate) (runs : list vrun) : list (outcome (list range)) :=
+  match runs with
+  | [] => []
+  | (t, rows, fb) :: tl =>
+      let (o, st') := run_v st rows fb t in o :: vsession st' tl
+  end.
